@@ -168,6 +168,27 @@ def shard_js(shard, nshards, tier, seed, scratch):
                     seen.add(('js', 'query-result'))
                     failures.append({'leg': 'js', 'clause': 'js-query-result', 'detail': {'text': t, 'pattern': p, 'got': r[0], 'expected': exp}, 'case': {'kind': 'jspair', 'text': t, 'pattern': p}})
         stats.bump('js-batches', len(jobs))
+        import random
+        rnd = random.Random(seed)
+        astral = ['😀', '𝄞', 'a', 'b', '%', '.', '*', 'é', '€', '\\', '(', '𐍈']
+        rows = []
+        for _ in range(400 if tier == 'quick' else 4000):
+            t = ''.join(rnd.choice(astral[:2] + astral[2:4] + ['.', 'é', '€', '𐍈']) for _ in range(rnd.randint(0, 5)))
+            p = ''.join(rnd.choice(astral) for _ in range(rnd.randint(0, 5)))
+            if rnd.random() < 0.5:
+                # derived from the text so that matches are common
+                p = ''.join(('%' if rnd.random() < 0.3 else ch) for ch in t)
+            rows.append([t, p])
+        res = drv.query_table('select like(a1, a2)', rows)
+        if res['error'] is not None:
+            raise Violation('js-error', {'text': rows[0][0], 'error': res['error']})
+        for (t, p), r in zip(rows, res['out']):
+            exp = refmodel.ref_like(t, p)
+            stats.evaluations += 1
+            if r[0] is not exp and ('js', 'astral') not in seen:
+                seen.add(('js', 'astral'))
+                failures.append({'leg': 'js', 'clause': 'js-query-result-non-bmp', 'detail': {'text': t, 'pattern': p, 'got': r[0], 'expected': exp}, 'case': {'kind': 'jspair', 'text': t, 'pattern': p}})
+        stats.bump('js-non-bmp-pairs', len(rows))
     except Violation as v:
         failures.append({'leg': 'js', 'clause': v.clause, 'detail': v.detail, 'case': {'kind': 'jspair', 'text': v.detail.get('text'), 'pattern': ''}})
     finally:
